@@ -16,7 +16,7 @@ META = dict(
     title='ACU executes exactly the well-formed, permitted, in-range commands',
     design_ref='DESIGN.md section 7, C14',
     coq_target='Properties/C14.vo',
-    coq_extra=['Corr/AcmdCorr.vo'],
+    coq_extra=['Corr/AcmdCorr.vo', 'Corr/AcmdResetCorr.vo'],
     technique='Coq proof (framing automaton + _parse_commands + mode/parameter command acceptance on '
               'Flocq binary64 values, constants from a generated table) + in-Coq differential '
               'correspondence with the real System.parse and subsystem handlers',
@@ -403,6 +403,7 @@ def correspondence(ctx):
         ctx.sample(c[:600])
     ctx.run_cases('acu_commands', 'From DS Require Import Corr.AcmdCorr.', 'acase', 'ok', cases,
                   show='show', shard=ctx.n(40, 120))
+    reset_correspondence(ctx)
 
 
 # ---------------------------------------------------------------------------
@@ -667,6 +668,7 @@ def oracle(ctx):
                 ctx.fail(klass, what, dict(history=ops_to_json(ops), **details))
             examine(A, T, ops, report)
             checked += sum(1 for o in ops if o[0] == 'feed')
+    checked += reset_oracle(ctx, T, pool)
     ctx.oracle_stats = dict(histories=len(histories), messages=checked)
     ctx.evaluations += checked
 
@@ -683,7 +685,259 @@ def replay(ctx, obj):
     """re-execute the recorded history; True when the recorded class still fails"""
     T = tables(ctx)
     hits = []
+    if 'reset_case' in obj['witness']:
+        with L.patched() as A:
+            reset_examine(A, T, obj['witness']['reset_case'], lambda klass, what, **d: hits.append(klass))
+        return obj.get('klass') in hits
     with L.patched() as A:
         examine(A, T, ops_from_json(obj['witness']['history']),
                 lambda klass, what, **d: hits.append(klass))
     return obj.get('klass') in hits
+
+
+# ---------------------------------------------------------------------------
+# status flags and `_reset` (mode command 15): Model/AcmdReset.v, Corr/AcmdResetCorr.v,
+# theorems C14_reset_effect / C14_reset_refused_unchanged / C14_flags_only_by_reset.
+# A reset case (JSON-able): dict(prep=[op, ..], frame=hex) on a fresh System (idle parser):
+#   ['poke', which, field, value]   acmd_lib.poke (axis_state / p_Ist / p_Offset setters)
+#   ['flag', which, name, bool]     a status flag through the class's own setter
+#   ['rawerr', which, [bit, ..]]    the unnamed bits of the error word, written the way the
+#                                   setters write it (no setter exists for them)
+
+GEN_FLAGS = ['simulation', 'axis_ready', 'confOk', 'initOk', 'override', 'low_power_mode']
+AUX_FIELDS = ['p_Bahn', 'p_AbwFil', 'v_Bahn', 'a_Bahn', 'motor_selection', 'power_module_ok', 'ptState',
+              'stow_pin_selection']
+XSNAP_FIELDS = L.SNAP_FIELDS + ['general_flags', 'warnings(without bit 25)', 'errors'] + AUX_FIELDS
+WARN_OWNED_BY_MOTION = 1 << 25       # Stowpins_Extracted: field 12 of the axis snapshot
+UNNAMED_ERR_BITS = [5, 10, 20, 21, 28]
+
+
+def warning_flag_names(T):
+    """the boolean flags of the warning word that have a setter (Stowpins_Extracted excluded: it
+    is a field of the motion record), found by probing a scratch SimpleAxisStatus"""
+    from simulators.acu.axis_status import SimpleAxisStatus
+    skip = {n for n, _ in T['error_flags']} | set(GEN_FLAGS) | {'Stowpins_Extracted'}
+    out = []
+    for n, prop in vars(SimpleAxisStatus).items():
+        if not isinstance(prop, property) or prop.fset is None or n in skip:
+            continue
+        probe = SimpleAxisStatus()
+        v = getattr(probe, n)
+        if not isinstance(v, bool):
+            continue
+        w0, e0 = probe.warnings, probe.errors
+        setattr(probe, n, not v)
+        if probe.warnings != w0 and probe.errors == e0:
+            out.append(n)
+    return out
+
+
+def xsnapshot(ax):
+    gen = sum(int(bool(getattr(ax, n))) << i for i, n in enumerate(GEN_FLAGS))
+    warn = int(ax.warnings[::-1], 2) & ~WARN_OWNED_BY_MOTION
+    err = int(ax.errors[::-1], 2)
+    aux = [ax.p_Bahn, ax.p_AbwFil, ax.v_Bahn, ax.a_Bahn, L.b16(ax.motor_selection),
+           L.b16(ax.power_module_ok), ax.ptState, L.b16(ax.stow_pin_selection)]
+    return L.axis_snapshot(ax) + [gen, warn, err] + aux
+
+
+def apply_prep(s, prep):
+    from simulators import utils
+    for op in prep:
+        ax = s.AZ if op[1] == 0 else s.EL
+        if op[0] == 'poke':
+            L.poke(s, op[1], op[2], op[3])
+        elif op[0] == 'flag':
+            setattr(ax, op[2], bool(op[3]))
+        elif op[0] == 'rawerr':
+            errors = list(ax.errors)
+            for k in op[2]:
+                errors[k] = '1'
+            ax.status[10:14] = utils.binary_to_bytes(''.join(errors)[::-1])
+
+
+def run_reset_case(A, case):
+    s = L.new_system(A)
+    apply_prep(s, case['prep'])
+    L.take_events()
+    pre = (xsnapshot(s.AZ), xsnapshot(s.EL))
+    data = bytes.fromhex(case['frame'])
+    outs = L.feed(s, data)
+    ev = L.take_events()
+    post = (xsnapshot(s.AZ), xsnapshot(s.EL))
+    return pre, outs, ev, post
+
+
+def gen_reset_case(ctx, T, pool, wnames):
+    rng = ctx.rng
+    prep = []
+    enames = [n for n, _ in T['error_flags']]
+    for which in (0, 1):
+        r = rng.random()
+        if r < 0.8:
+            prep.append(['poke', which, 0, rng.choice([0, 0, 1, 1, 2, 3, 3])])
+        c = T['AZ' if which == 0 else 'EL']
+        if rng.random() < 0.3:
+            prep.append(['poke', which, 1, rng.randrange(c['min_pos'] * 10 ** 6, c['max_pos'] * 10 ** 6 + 1)])
+        if rng.random() < 0.2:
+            prep.append(['poke', which, 2, rng.choice([0, 1, -1, 123456789, -2 ** 31])])
+        r = rng.random()
+        pe = 1.0 if r < 0.2 else 0.0 if r < 0.3 else rng.choice([0.1, 0.5, 0.9])
+        for n in enames:
+            if rng.random() < pe:
+                prep.append(['flag', which, n, True])
+        if r < 0.2 and rng.random() < 0.5:       # all but one
+            prep.append(['flag', which, rng.choice(enames), False])
+        pw = rng.choice([0.0, 0.3, 1.0])
+        for n in wnames:
+            if rng.random() < pw:
+                prep.append(['flag', which, n, True])
+        for n in GEN_FLAGS:
+            if rng.random() < 0.4:
+                prep.append(['flag', which, n, rng.random() < 0.5])
+        if rng.random() < 0.35:
+            prep.append(['rawerr', which, [k for k in UNNAMED_ERR_BITS if rng.random() < 0.6]])
+    subs = rng.choice([[1], [2], [1, 2], [2, 1], [1, 2], []])
+    cmds = []
+    for sub in subs:
+        r = rng.random()
+        c = rng.choice([rng.randrange(2 ** 32), 0, 2 ** 31, 2 ** 32 - 1, rng.randrange(1, 100)])
+        if r < 0.7:
+            cmds.append(mode_cmd(sub, c, 15, rnd_double(ctx, T, pool), rnd_double(ctx, T, pool)))
+        elif r < 0.9:
+            cmds.append(gen_command(ctx, T, pool, sub=sub, kind='mode'))
+        else:
+            cmds.append(gen_command(ctx, T, pool, sub=sub, kind='param'))
+    counter = rng.choice([rng.randrange(2 ** 32), 0, 1, 2 ** 32 - 1])
+    r = rng.random()
+    if r < 0.8:
+        f, tag = L.frame(counter, cmds), 'valid'
+    elif r < 0.87:
+        f, tag = L.frame(counter, cmds, end=b'\xd1\xcf\xfc\xa0'), 'bad-end'
+    elif r < 0.94:
+        f, tag = L.frame(counter, cmds, count=len(cmds) + 1), 'bad-count'
+    else:
+        f, tag = L.frame(counter, cmds)[:-rng.randrange(1, 6)], 'truncated'
+    return dict(prep=prep, frame=f.hex()), tag
+
+
+RESET_CORPUS = [
+    # every flag set, AZ inactive: accepted; EL active: refused
+    lambda T: dict(prep=[['flag', w, n, True] for w in (0, 1) for n, _ in T['error_flags']]
+                   + [['rawerr', 0, UNNAMED_ERR_BITS], ['rawerr', 1, UNNAMED_ERR_BITS], ['poke', 1, 0, 3]],
+                   frame=L.frame(5, [mode_cmd(1, 6, 15), mode_cmd(2, 7, 15)]).hex()),
+    # deactivating axis: accepted
+    lambda T: dict(prep=[['poke', 0, 0, 1]] + [['flag', 0, n, True] for n, _ in T['error_flags'][::2]],
+                   frame=L.frame(5, [mode_cmd(1, 2 ** 31 + 6, 15, NAN, PINF)]).hex()),
+    # activating (2): refused
+    lambda T: dict(prep=[['poke', 1, 0, 2]] + [['flag', 1, n, True] for n, _ in T['error_flags']],
+                   frame=L.frame(5, [mode_cmd(2, 6, 15)]).hex()),
+] + [
+    # one flag at a time
+    (lambda k: (lambda T: dict(prep=[['flag', k % 2, T['error_flags'][k % len(T['error_flags'])][0], True]],
+                               frame=L.frame(9, [mode_cmd(1 + k % 2, 10 + k, 15)]).hex())))(k)
+    for k in range(27)
+]
+
+
+def reset_cases(ctx, T, pool, n):
+    wnames = warning_flag_names(T)
+    cases = [('corpus', mk(T)) for mk in RESET_CORPUS]
+    for _ in range(n):
+        case, tag = gen_reset_case(ctx, T, pool, wnames)
+        cases.append((tag, case))
+    return cases
+
+
+def reset_correspondence(ctx):
+    T = tables(ctx)
+    pool = double_pool(T, ctx.rng)
+    terms = []
+    with L.patched() as A:
+        for tag, case in reset_cases(ctx, T, pool, ctx.n(150, 2500)):
+            pre, outs, ev, post = run_reset_case(A, case)
+            th = '[' + '; '.join('(%s, %s, %s, %d)' % (zlit(a), zlit(b), zlist(c), d) for a, b, c, d, _ in ev) + ']'
+            terms.append('RCase %s %s %s %s %s %s %s' % (zlist(pre[0]), zlist(pre[1]),
+                                                         zlist(bytes.fromhex(case['frame'])), zlist(outs), th,
+                                                         zlist(post[0]), zlist(post[1])))
+            ctx.count('reset-case:' + tag)
+            for sub, cid, cmd, t, exn in ev:
+                if cid == 1 and len(cmd) == 26 and cmd[8:10] == b'\x0f\x00':
+                    a = post[0] if sub == 1 else post[1]
+                    ctx.count('reset-answer:%d' % a[17])
+                    ctx.nontriv(('reset', sub, tuple(pre[sub - 1]), a[17]))
+    ctx.sample(terms[0][:600])
+    ctx.run_cases('acu_reset', 'From DS Require Import Corr.AcmdResetCorr.', 'rcase', 'rok', terms,
+                  show='rshow', shard=ctx.n(60, 200))
+
+
+def reset_examine(A, T, case, report):
+    """the statements C14_reset_effect / C14_reset_refused_unchanged / C14_flags_only_by_reset over
+    the real classes, for one reset case"""
+    pre, outs, ev, post = run_reset_case(A, case)
+    named = T['error_flags']
+    named_mask = sum(1 << k for _, k in named)
+    E = len(L.SNAP_FIELDS) + 2          # index of the error word in an xsnapshot
+    touched = {}
+    for e in ev:
+        touched.setdefault(e[0], []).append(e)
+    for which, sub in ((0, 1), (1, 2)):
+        b, a = pre[which], post[which]
+        name = L.AXES[which]
+
+        def diff():
+            return {XSNAP_FIELDS[i]: (b[i], a[i]) for i in range(len(b)) if a[i] != b[i]}
+        w = dict(axis=name, reset_case=case, state_before=b[0], errors_before=b[E], errors_after=a[E])
+        evs = touched.get(sub, [])
+        if not evs:
+            if a != b:
+                report('flags_changed_without_command', 'axis status changed although no command was started '
+                       'for the axis', changed=diff(), **w)
+            continue
+        if len(evs) != 1:
+            continue
+        _, cid, cmd, t, exn = evs[0]
+        is_reset = cid == 1 and len(cmd) == 26 and struct.unpack('<h', cmd[8:10])[0] == T['reset_mode']
+        flags_same = a[24:] == b[24:]
+        if not is_reset:
+            if not flags_same:
+                report('flags_changed_without_reset', 'a command other than reset changed status flags',
+                       changed=diff(), cmd=cmd.hex(), **w)
+            continue
+        counter = struct.unpack('<I', cmd[4:8])[0]
+        if b[0] in (0, 1):
+            left = [n for n, k in named if a[E] >> k & 1]
+            if left:
+                report('reset_flag_not_cleared', 'an accepted reset left error flags set: %s' % ', '.join(left),
+                       cmd=cmd.hex(), **w)
+            others = [i for i in range(len(b)) if i not in (15, 16, 17, 18, 19, 20, E)]
+            if any(a[i] != b[i] for i in others) or (a[E] ^ b[E]) & ~named_mask:
+                report('reset_changed_other_state', 'an accepted reset changed something besides the error '
+                       'flags and the received / executed command fields', changed=diff(), cmd=cmd.hex(), **w)
+            if a[15:21] != [counter, T['reset_mode'], 9, counter, T['reset_mode'], T['reset_answer']] \
+                    or t != L.T_DONE:
+                report('reset_not_acknowledged', 'an accepted reset is not reflected as (counter, 15, 9) / '
+                       '(counter, 15, 1), or its thread did not end normally (%s %s)' % (t, exn),
+                       got=a[15:21], cmd=cmd.hex(), **w)
+        else:
+            keep = [i for i in range(len(b)) if i not in (15, 16, 17)]
+            if any(a[i] != b[i] for i in keep):
+                report('reset_refused_changed_state', 'a reset that is not permitted (axis state %d) changed '
+                       'status flags, motion or the executed fields' % b[0], changed=diff(), cmd=cmd.hex(), **w)
+            if a[15:18] != [counter, T['reset_mode'], 4] or t != L.T_DONE:
+                report('reset_refused_wrong_answer', 'a reset on an axis in state %d is not answered 4' % b[0],
+                       got=a[15:18], cmd=cmd.hex(), **w)
+
+
+def reset_oracle(ctx, T, pool):
+    seen = set()
+    cases = reset_cases(ctx, T, pool, ctx.n(400, 6000))
+    with L.patched() as A:
+        for tag, case in cases:
+            def report(klass, what, **details):
+                if klass in seen and len(ctx.failures) > 40:
+                    return
+                seen.add(klass)
+                ctx.fail(klass, what, details)
+            reset_examine(A, T, case, report)
+    return len(cases)
